@@ -134,6 +134,7 @@ class Scenario:
     durations: dict = field(default_factory=dict)       # {"step": 0.5, ...} virtual seconds (timed)
     timed: bool = False
     interrupt_at: int | None = None
+    boot_interrupt: str | None = None   # KeyboardInterrupt instead of starting "inference" | "training" | "webapi"
     keeper_max_keep: int | None = None
     loop_quantum: float = 0.25        # timed mode: virtual duration of one loop delay
     prelaunch: bool = False           # run a short first launch() and start the scenario from its final state
@@ -536,6 +537,7 @@ class Harness:
                 max_attempts_to_pause_all_threads=sc.max_attempts, max_uptime=sc.max_uptime,
                 web_api_address=("localhost", 8391), web_api_command_queue_size=sc.queue_size,
                 log_tick_time_statistics_interval=sc.log_interval, time_scale=sc.time_scale)
+            s.boot_interrupt = sc.boot_interrupt
             try:
                 launch(comps["interaction"], {}, {"buf": SequentialBuffer(8)},
                        comps["trainers"], cfg)
